@@ -66,6 +66,23 @@ fn run_script(c: &mut Ctx, t: &Target, chunks: &[Vec<u8>], baseline: &[u8], scri
         Ok(r) => {
             // model reply: ok|err <delivered-len>  (counter and issued are model-internal: compared only through their consequences)
             c.corr(req, format!("{} {}", if r.is_ok() { "ok" } else { "err" }, sink.delivered.len()));
+            // the same run as a function of the DOCUMENT: the model derives the bytes, the point at which save
+            // mutates the document, and the document the caller holds afterwards (Model/SaveSink.lean)
+            {
+                let (kind, prev, before, after): (&str, Vec<u8>, &Document, &Document) = match (t, &t2) {
+                    (Target::Plain(d0), Target::Plain(d1)) => (if matches!(d0.reference_table.cross_reference_type, XrefType::CrossReferenceStream) { "stream" } else { "table" }, vec![], d0, d1),
+                    (Target::Incr(i0), Target::Incr(i1)) => (if matches!(i0.get_prev_documents().reference_table.cross_reference_type, XrefType::CrossReferenceStream) { "stream" } else { "table" }, i0.get_prev_documents_bytes().to_vec(), &i0.new_document, &i1.new_document),
+                    _ => unreachable!(),
+                };
+                // the first request of an incremental save is the previous file itself: not part of the new revision
+                let new_chunks: Vec<&Vec<u8>> = if prev.is_empty() { chunks.iter().collect() } else { chunks.iter().skip(1).collect() };
+                let script_new: Vec<Resp> = script.clone();
+                let req2 = format!("c19_save {} {} {} {} {} {} {} ; {} ; {}", kind, before.max_id, hex_tok(before.version.as_bytes()), hex_tok(&before.binary_mark), hex_tok(&prev),
+                    show_obj(&lopdf::Object::Dictionary(before.trailer.clone())), show_objects(before.objects.iter()),
+                    script_tokens(&script_new), std::iter::once(hex_tok(&prev)).filter(|_| !prev.is_empty()).chain(new_chunks.iter().map(|c| hex_tok(c))).collect::<Vec<_>>().join(" "));
+                c.corr(req2, format!("{} {} {} {}", if r.is_ok() { "ok" } else { "err" }, sink.delivered.len(), after.max_id, show_obj(&lopdf::Object::Dictionary(after.trailer.clone()))));
+                c.count(if after.max_id != before.max_id || after.trailer != before.trailer { "state.mutated" } else { "state.unchanged" });
+            }
             if !baseline.starts_with(&sink.delivered) {
                 c.oracle_fail("not-prefix", &format!("{}: delivered bytes are not a prefix of the complete output", what), json!({"script": script_tokens(&script)}));
             }
